@@ -19,6 +19,7 @@ pub struct GenParams {
     pub nest_pct: u32,
     pub uses_pct: u32,
     pub max_cmds: usize,
+    pub min_cmds: usize,
     pub undefined_pct: u32,
     pub nonexec_pct: u32,
     pub shuffle_decl_pct: u32,
@@ -35,6 +36,7 @@ impl Default for GenParams {
             nest_pct: 25,
             uses_pct: 45,
             max_cmds: 3,
+            min_cmds: 1,
             undefined_pct: 0,
             nonexec_pct: 0,
             shuffle_decl_pct: 30,
@@ -104,8 +106,16 @@ pub fn gen_world(rng: &mut Rng, p: &GenParams) -> WorldSpec {
                 ..Default::default()
             });
         }
+        // and one target that depends on every one of them (the next layer)
+        if wn >= 8 {
+            targets.push(TargetSpec {
+                path: "wtop".into(),
+                uses: (0..wn).map(|i| format!("w{:02}", i)).collect(),
+                ..Default::default()
+            });
+        }
     }
-    let ncmd = rng.range(1, p.max_cmds);
+    let ncmd = rng.range(p.min_cmds.max(1), p.max_cmds);
     let mut cmds: Vec<&str> = COMMANDS.to_vec();
     rng.shuffle(&mut cmds);
     cmds.truncate(ncmd);
@@ -559,6 +569,7 @@ pub fn behav_exit0_all(spec: &WorldSpec, rng: &mut Rng, max_outs: usize) -> Vec<
             exit_pause_ms: 0,
             early_exit: false,
             hold_pipes_ms: 0,
+            outs_again: vec![],
         })
         .collect()
 }
